@@ -12,6 +12,7 @@ R09.6 prune removes only files older than the grace period.
 from __future__ import annotations
 
 import ast
+import os
 
 from sa.cfg import EXC_LABELS, node_calls, node_exprs, _walk_shallow
 from sa.common import cfg_of, gitfile_mode, is_gitfile_call
@@ -175,6 +176,34 @@ def _remove_calls(g, pred_arg=None):
     return nodes_calling(g, lambda c: dotted(c.func) in ("os.remove", "os.unlink"))
 
 
+def r09_10(prog: Program, rep):
+    """Objects before the index: a function that both stores blobs and writes the index stores the blobs FIRST - no add_object
+    is reachable after the index was written (a crash in between leaves an index naming blobs that do not exist)."""
+    n = 0
+    for rel in ("dulwich/worktree.py", "dulwich/porcelain/__init__.py", "dulwich/index.py", "dulwich/stash.py"):
+        if rel not in prog.modules and not os.path.exists(os.path.join(prog.root, rel)):
+            continue
+        m = prog.module(rel)
+        for q, f in sorted(m.funcs.items()):
+            if "#" in q:
+                continue
+            src = norm(f.node, 200000)
+            if "add_object(" not in src or ".write()" not in src:
+                continue
+            g = cfg_of(prog, f)
+            iw = [i for i, nd in g.nodes.items() for c in node_calls(nd) if isinstance(c.func, ast.Attribute) and c.func.attr == "write" and not c.args
+                  and "index" in norm(c.func.value).lower() and m.enclosing_func(c) is f]
+            ao = [i for i, nd in g.nodes.items() for c in node_calls(nd) if callee_name(c) in ("add_object", "add_objects") and m.enclosing_func(c) is f]
+            if not iw or not ao:
+                continue
+            n += 1
+            never_before(rep, "R09.10", g, f, iw, ao, "no object is stored after the index was written (objects first)",
+                         "blobs are stored after index.write(): a crash in between leaves the index (and the next commit's tree) naming objects "
+                         "that were never written")
+    if n < 1:
+        raise AnalysisError("no function that stores objects and writes the index was found")
+
+
 def r09_5(prog: Program, rep):
     m = prog.module(REFS_PY)
     f = prog.func(REFS_PY, "DiskRefsContainer.add_packed_refs")
@@ -244,6 +273,7 @@ def run(prog: Program, rep, tier="quick"):
     rep.rule("R09.1", "objects before refs: every ref write of a locally built object's id is dominated by add_object(s) of it")
     rep.rule("R09.2", "_complete_pack: flush/fsync/close < rename < index lock < index commit & validation < pack cache")
     rep.rule("R09.3", "loose objects go through the lock protocol with the fsync option")
+    rep.rule("R09.10", "objects before the index: no add_object after index.write() in the staging functions")
     rep.rule("R09.4", "repack/pack_loose_objects: NEVER-BEFORE(delete, add_objects)")
     rep.rule("R09.5", "NEVER-BEFORE(remove loose ref, commit packed-refs); deletion removes the packed entry first")
     rep.rule("R09.6", "prune removes only after the grace-period test")
@@ -260,8 +290,14 @@ def run(prog: Program, rep, tier="quick"):
     rep.floor("R09.2", 6)
     rep.floor("R09.4", 4)
     rep.floor("R09.5", 3)
+    r09_10(prog, rep)
     from sa.common import share
     from rules import c07
+    share(rep, lambda: c07.r07_4(prog, rep), "R09.9", lambda o: True,
+          "a stale lock left by a crash fails the next writer instead of making it skip the write (shared with R07.4)")
+    share(rep, lambda: c07.r07_2(prog, rep), "R09.8", lambda o: o.rule in ("R07.2", "R07.2c"),
+          "a failure never commits (shared with R07.2): on every path where an exception propagates the lock file is discarded, not renamed over "
+          "the target - otherwise an interrupted write leaves a truncated index / ref / config")
     share(rep, lambda: c07.r07_1(prog, rep), "R09.7", lambda o: o.rule == "R07.1b",
           "durability point of every locked write (shared with R07.1b): flush, fsync when configured and close of the handle precede the rename")
     rep.floor("R09.6", 2)
